@@ -23,7 +23,7 @@ def floors(tier):
 
 
 def run(ctx):
-    sf = env.load_selfies()
+    sf = env.varied(env.load_selfies(), ctx)
     rng = ctx.rng
     quick = ctx.tier == "quick"
     shared_stoi, shared_itos = {}, {}
